@@ -58,42 +58,87 @@ func objPos(c *Ctx, o types.Object) string {
 	return c.P.Pos(o.Pos())
 }
 
-// defaultOptions evaluates the composite literal returned by defaultParserOptions(): field -> table value.
+// defaultOptions: what a parser built without options holds in each parserOptions field — read off the stores into
+// parserOptions fields performed (outside loops and option closures) by NewParser and the module functions it calls,
+// however the defaults are written (composite literal, field assignments, a helper): field -> table value.
 func defaultOptions(c *Ctx) (map[string]interface{}, map[string]ast.Expr, token.Pos, error) {
-	fn := c.P.Func("url", "", "defaultParserOptions")
-	if fn == nil {
-		return nil, nil, 0, fmt.Errorf("anchor defaultParserOptions not found")
-	}
-	fd := c.P.Decl(fn)
-	pk := c.P.ByName["url"]
-	if fd == nil || len(fd.Body.List) != 1 {
-		return nil, nil, 0, fmt.Errorf("defaultParserOptions is not a single return statement")
-	}
-	ret, ok := fd.Body.List[0].(*ast.ReturnStmt)
-	if !ok || len(ret.Results) != 1 {
-		return nil, nil, 0, fmt.Errorf("defaultParserOptions is not a single return statement")
-	}
-	lit, ok := ast.Unparen(ret.Results[0]).(*ast.CompositeLit)
-	if !ok {
-		return nil, nil, 0, fmt.Errorf("defaultParserOptions does not return a composite literal")
+	root := c.P.Func("url", "", "NewParser")
+	if root == nil {
+		return nil, nil, 0, fmt.Errorf("anchor NewParser not found")
 	}
 	env := BuildTables(c)
-	vals := map[string]interface{}{}
-	exprs := map[string]ast.Expr{}
-	for _, el := range lit.Elts {
-		kv, ok := el.(*ast.KeyValueExpr)
-		if !ok {
-			return nil, nil, 0, fmt.Errorf("positional field in defaultParserOptions")
+	fns := []*ssa.Function{root}
+	seen := map[*ssa.Function]bool{root: true}
+	for depth, frontier := 0, []*ssa.Function{root}; depth < 3 && len(frontier) > 0; depth++ {
+		var next []*ssa.Function
+		for _, f := range frontier {
+			for _, b := range f.Blocks {
+				for _, ins := range b.Instrs {
+					if call, ok := ins.(*ssa.Call); ok {
+						if cl := call.Common().StaticCallee(); cl != nil && c.P.InModule(cl) && len(cl.Blocks) > 0 && !seen[cl] && cl.Parent() == nil {
+							seen[cl] = true
+							next = append(next, cl)
+							fns = append(fns, cl)
+						}
+					}
+				}
+			}
 		}
-		k := kv.Key.(*ast.Ident).Name
-		exprs[k] = kv.Value
-		if tv, ok := pk.TypesInfo.Types[kv.Value]; ok && tv.Value != nil {
-			vals[k] = tv.Value
-			continue
-		}
-		vals[k] = env.eval(pk, kv.Value)
+		frontier = next
 	}
-	return vals, exprs, fd.Pos(), nil
+	vals := map[string]interface{}{}
+	count := map[string]int{}
+	for _, f := range fns {
+		loops := loopsOf(f)
+		for _, b := range f.Blocks {
+			if len(inLoops(loops, b)) > 0 {
+				continue
+			}
+			for _, ins := range b.Instrs {
+				st, ok := ins.(*ssa.Store)
+				if !ok {
+					continue
+				}
+				fa, ok := st.Addr.(*ssa.FieldAddr)
+				if !ok {
+					continue
+				}
+				el := fieldElem(fa.X.Type(), fa.Field)
+				if !strings.HasPrefix(el, "parserOptions:") {
+					continue
+				}
+				k := strings.TrimPrefix(el, "parserOptions:")
+				count[k]++
+				switch v := st.Val.(type) {
+				case *ssa.Const:
+					if v.Value != nil {
+						vals[k] = v.Value
+					}
+				case *ssa.UnOp:
+					if g, ok := v.X.(*ssa.Global); ok && g.Object() != nil {
+						if tv, ok := env.globals[g.Object()]; ok {
+							vals[k] = tv
+						} else {
+							vals[k] = tvUnknown{"package-level variable " + g.Name() + " has no table value"}
+						}
+					} else {
+						vals[k] = tvUnknown{"default of " + k + " is not a package-level table"}
+					}
+				default:
+					vals[k] = tvUnknown{"default of " + k + " is computed (" + st.Val.String() + "), not a package-level table"}
+				}
+			}
+		}
+	}
+	for k, n := range count {
+		if n > 1 {
+			vals[k] = tvUnknown{"field " + k + " is given a default more than once"}
+		}
+	}
+	if len(count) == 0 {
+		return nil, nil, 0, fmt.Errorf("NewParser and the functions it calls store no default into parserOptions")
+	}
+	return vals, nil, root.Pos(), nil
 }
 
 func pesDenotation(c *Ctx, v interface{}, method string) (iset, error) {
